@@ -5,5 +5,5 @@ p=$1; shift
 cd /repo || exit 9
 if ! git diff --quiet; then echo "/repo has uncommitted changes"; exit 9; fi
 git apply "$p" || { echo "patch does not apply: $p"; exit 8; }
-for prop in "$@"; do (cd /verif && ./check $prop | grep -E "^(FAIL|VIOLATION|KNOWN|BUILD|C[0-9]+:)" | cut -c1-400); done
+for prop in "$@"; do (cd /verif && FCVERIF_NO_EVIDENCE=1 ./check $prop | grep -E "^(FAIL|VIOLATION|KNOWN|BUILD|C[0-9]+:)" | cut -c1-400); done
 git checkout -- .
